@@ -117,3 +117,26 @@ func VerifC17_concurrent() {
 	}
 	vfCheckListing(RegisteredDecorationNames(), regd)
 }
+
+// VerifC17_listers: concurrent listings (and lookups) with or without an earlier listing or a
+// registration before them.
+func VerifC17_listers() {
+	var l1, l2 []string
+	var d Decoration
+	if vfChoice("register-first", 2) == 1 {
+		RegisterDecorationName(vfString("n", 1, vfASCII), vfDeco('x'))
+	}
+	if vfChoice("warm", 2) == 1 {
+		RegisteredDecorationNames()
+	}
+	bodies := []func(){
+		func() { l1 = RegisteredDecorationNames() },
+		func() { l2 = RegisteredDecorationNames() },
+		func() { d = Named(D_NONE) },
+	}
+	vfPar(bodies[:2+vfChoice("third", 2)]...)
+	vfCheckListing(l1, nil)
+	vfCheckListing(l2, nil)
+	vfAssert(len(l1) == len(l2), "concurrent-listings-agree")
+	_ = d
+}
